@@ -579,12 +579,11 @@ func (r *Router) waitForHandlers() bool {
 	waitGroup.Add(1)
 	go func() {
 		defer waitGroup.Done()
+
+		// First wait until the handlers stopped receiving: a message that is still on its way from the
+		// subscriber may be dispatched until then. Only afterwards is the set of running handlers final.
 		r.handlersWg.Wait()
 		verifhook.At("router.close.handlers_wait_done", "", "")
-	}()
-	waitGroup.Add(1)
-	go func() {
-		defer waitGroup.Done()
 
 		r.runningHandlersWgLock.Lock()
 		defer r.runningHandlersWgLock.Unlock()
